@@ -12,7 +12,7 @@ func init() {
 	verifRegister("VerifC13_FirstUse", VerifC13_FirstUse)
 }
 
-const verifNShared = 12
+const verifNShared = 16
 
 func verifSharedCase(k int) (s any, ops func(i int)) {
 	switch k {
@@ -94,6 +94,54 @@ func verifSharedCase(k int) (s any, ops func(i int)) {
 		return e, func(i int) {
 			_ = e.ValidateCompatibility(e)
 			_, _ = e.Unserialize(int64(i))
+		}
+	}
+	switch k {
+	case 12, 13: // a scope as UnserializeScope returns it (lazy parts not yet computed): units, defaults, references
+		src := NewScopeSchema(NewObjectSchema("A", map[string]*PropertySchema{
+			"t":    NewPropertySchema(NewIntSchema(nil, nil, UnitDurationSeconds), nil, false, nil, nil, nil, verifStrPtr(`"5m"`), nil),
+			"s":    NewPropertySchema(NewStringSchema(nil, nil, verifPatAB), nil, false, nil, nil, nil, nil, nil),
+			"next": NewPropertySchema(NewRefSchema("A", nil), nil, false, nil, nil, nil, nil, nil),
+		}))
+		d, err := src.SelfSerialize()
+		if err != nil {
+			panic("C13: scope does not describe itself")
+		}
+		var desc any = d
+		if k == 13 {
+			desc = verifCBOR(d)
+		}
+		rebuilt, err := UnserializeScope(desc)
+		if err != nil {
+			panic("C13: description not accepted")
+		}
+		return rebuilt, func(i int) {
+			u, err := rebuilt.Unserialize(map[string]any{"t": "1H5s", "s": "ab", "next": map[string]any{}})
+			if err == nil {
+				_ = rebuilt.Validate(u)
+				_, _ = rebuilt.Serialize(u)
+			}
+			_ = rebuilt.ValidateCompatibility(map[string]any{"t": int64(i)})
+		}
+	case 14: // schema-mode compatibility and self-description (the package-level meta-schema is shared state)
+		o := NewScopeSchema(NewObjectSchema("O", map[string]*PropertySchema{
+			"a": NewPropertySchema(NewIntSchema(nil, nil, UnitBytes), nil, true, nil, nil, nil, nil, nil),
+			"e": NewPropertySchema(NewStringEnumSchema(map[string]*DisplayValue{"x": NewDisplayValue(nil, nil, nil)}), nil, false, nil, nil, nil, nil, nil),
+		}))
+		return o, func(i int) {
+			_ = o.ValidateCompatibility(o)
+			_, _ = o.SelfSerialize()
+		}
+	case 15: // a whole plugin schema: describe, and rebuild
+		step := NewCallableStep[map[string]any]("s", verifScopeOf(map[string]*PropertySchema{}, "In"),
+			map[string]*StepOutputSchema{"ok": NewStepOutputSchema(verifScopeOf(map[string]*PropertySchema{}, "Ok"), nil, false)}, nil,
+			func(ctx context.Context, in map[string]any) (string, any) { return "ok", map[string]any{} })
+		cs := NewCallableSchema(step)
+		return cs, func(i int) {
+			d, err := cs.SelfSerialize()
+			if err == nil {
+				_, _ = UnserializeSchema(d)
+			}
 		}
 	}
 	if k == 10 || k == 11 {
